@@ -1,7 +1,8 @@
 import GlmVerif.Spec.C02
-import GlmVerif.Gen.C02
-/-! table check of family `ctor_diag` against the model generated from /repo (kernel evaluation) -/
+import GlmVerif.Gen.C02.ctor_diag
+/-! table check of family `ctor_diag` against the model of its units generated from /repo (kernel evaluation) -/
 namespace Glm.Props.C02
 open Glm Glm.Spec.C02 Glm.Gen.C02
-theorem ctor_diag_ok : f_ctor_diag.ok lookup = true := by decide +kernel
+set_option maxHeartbeats 4000000 in
+theorem ctor_diag_ok : f_ctor_diag.ok (fun _ ks => ctor_diag_L ks) = true := by decide +kernel
 end Glm.Props.C02
